@@ -1,10 +1,10 @@
 # -*- coding: utf-8 -*-
 
 import abc
+import calendar
 import datetime
 import enum
 import struct
-import time
 
 import attr
 import six
@@ -842,7 +842,7 @@ class ComposerBinary(ComposerBase):
         if value is None:
             timestamp = 2 ** (8 * item_size) - 1
         else:
-            timestamp = int(time.mktime(value.timetuple())) - time.timezone
+            timestamp = int(calendar.timegm(value.utctimetuple()))
 
             if milliseconds:
                 timestamp *= 1000
